@@ -27,6 +27,7 @@ static uint64_t ref_gcd(uint64_t a, uint64_t b) // Stein's binary gcd: independe
 // ---------------------------------------------------------------- sqrt
 static void sqrt32_all()
 {
+    vx::mark("a_u32_sqrt sweep");
     uint64_t lo, hi, n = 0, nt = 0;
     R.shard.range(1ull << 32, lo, hi);
     for (uint64_t x = lo; x < hi; ++x)
@@ -57,6 +58,7 @@ static inline void sqrt64_one(uint64_t x)
 }
 static void sqrt64_lattice(bool thorough)
 {
+    vx::mark("a_u64_sqrt lattice");
     s64n = s64nt = 0;
     // the places where a floor square root can change: k^2-1, k^2, k^2+1, k^2+k for every k of the tier's set
     uint64_t lo, hi;
@@ -153,6 +155,7 @@ static std::vector<uint64_t> special(int w)
 }
 static void gcd_all(bool thorough)
 {
+    vx::mark("gcd/lcm pairs");
     gn = gnt = 0;
     uint64_t lim = thorough ? 4096 : 2048;
     for (uint64_t a = (uint64_t)R.shard.idx; a < lim; a += (uint64_t)R.shard.n)
@@ -193,6 +196,7 @@ static inline uint64_t ref_rev(uint64_t x, int w)
 }
 static void rev_all()
 {
+    vx::mark("bit reversal sweep");
     for (int v = 0; v < 256; ++v)
     {
         uint8_t r = 0;
@@ -268,6 +272,7 @@ static void order_one(uint64_t x, int off)
 }
 static void order_all()
 {
+    vx::mark("byte-order accessors");
     bn = bnt = 0;
     if (R.shard.idx == 0) { for (uint32_t x = 0; x < 65536; ++x) { for (int off = 0; off < 8; ++off) { order_one<16>(x, off); } } }
     uint64_t lo, hi;
